@@ -265,16 +265,20 @@ def short_body(struct):
 
     def body(ctx):
         k, d = cases[ctx.pick('short', len(cases), 'S')]
+        # with value expectations ignored the stop signature is not validated: the over-run check is then the only guard
+        ive = bool(ctx.pick('ignore_value_expectation', 2, 'S'))
         b, info = message.build(spec, buf, declared={k: d})
         with contextlib.redirect_stderr(io.StringIO()):
             try:
-                decoder().process(b, wire_template_data=False)
+                decoder().process(b, wire_template_data=False, ignore_value_expectation=ive)
                 out = 'ok'
             except Exception as e:
                 out = type(e).__name__
-        res = {'outcome': ('short', k, out)}
+        res = {'outcome': ('short', k, out, ive)}
         if out == 'ok':
-            res['viol'] = ('short-accepted', 'section %d declared %d octets (< content) decodes without error' % (k, d))
+            res['viol'] = ('short-accepted' + ('-ive' if ive else ''),
+                           'section %d declared %d octets (< content) decodes without error%s'
+                           % (k, d, ' (ignore_value_expectation)' if ive else ''))
         return res
     return body
 
